@@ -8,12 +8,12 @@ from ..frontend.pyfront import Repo
 from .common import eps_mask, need_class, need_func, methods, make_eq
 
 LEVEL = 'other'
-TECHNIQUE = 'abstract interpretation of each rheology class (change_args then _implementation, guard branches selected by region) into rational/power-law expressions; modulus * published compliance == 1 by polynomial identity testing; guard values compared with rational-function limits (leading coefficients); access paths interpreted with the implementation stubbed'
+TECHNIQUE = 'abstract interpretation of each rheology class (change_args then _implementation, guard branches selected by region) into rational/power-law expressions; modulus * published compliance == 1 by polynomial identity testing; guard values compared with rational-function limits (leading coefficients; power laws (c x^k)^alpha carry degree k*alpha and a limit is taken only when one monomial dominates for every alpha in (0,1)); access paths interpreted with the implementation stubbed'
 LEVEL_TEXT = ('For all frequencies, rigidities, viscosities and model parameters at once: the main branch of each model is the reciprocal of the published compliance (exact identity), the legacy '
               'compliance functions are the same law, guard-branch returns are the limits of the main branch for the rational models, every access path applies the same implementation to the right '
               'elements, and the name lookup is exhaustive. Passivity and |M| <= mu follow from the compliance identities by sign reasoning stated in the evidence.')
 LEVEL_NOTE = ('Trusted: Cython-subset front-end, interpreter, our transcription of the published compliances (Maxwell, Voigt-Kelvin, Burgers, Andrade 1910 / Efroimsky 2012, Sundberg & Cooper 2010), '
-              'real algebra. x**alpha is exp(alpha log x). Not decided: ulp-level accuracy, overflow thresholds, limits of the power-law (Andrade-type) models at the extreme-frequency guards.')
+              'real algebra. x**alpha is exp(alpha log x). Not decided: ulp-level accuracy, overflow thresholds.')
 EXPLANATION = ('R07.1 modulus * J_ref == 1 on the main branch, 7 models; R07.2 legacy compliance == J_ref under compliance = 1/mu, Voigt offset = 1/scale; R07.3 guard returns == limits (rational models), '
                'Maxwell-family guards agree; R07.4 Re J >= 1/mu and Im J <= 0 from the form of J_ref; R07.5 access paths, no writes to self in _implementation, exhaustive find_rheology.')
 
@@ -116,9 +116,13 @@ def run(chk):
                 gm = guard_value('Maxwell', **reg)
                 ok = gv is gm or d.equal(to_node(gv), to_node(gm)) if not has_inf(gv) and not has_inf(gm) else repr(gv) == repr(gm)
                 chk.ob('R07.3', f'{name}: guard return for {label} agrees with the Maxwell sibling', ok, f'{show(gv)} vs Maxwell {show(gm)}', where, method='sibling agreement')
-                chk.undecide('R07.3', inst, 'limit of a power-law (x**alpha) expression is outside the rational-function limit engine')
-                continue
-            lim = R.limit(main[name], var, wh)
+                try:
+                    lim = R.limit_power_law(main[name], var, wh, alpha_names=(al.val[0],))
+                except AnalysisError as ex:
+                    chk.undecide('R07.3', inst, f'power-law limit not decided: {ex}')
+                    continue
+            else:
+                lim = R.limit(main[name], var, wh)
             if has_inf(gv):
                 ok = lim[0] == 'infinite'
                 chk.ob('R07.3', inst, ok, f'guard returns an infinite component, limit is {lim[0]}', where, key=f'R07.3|{name}|{label}', method='leading-coefficient limit')
